@@ -215,9 +215,10 @@ let mode_model (dlog : bool) =
       if String.length line = 0 || line.[0] = '#' then ()
       else match split_ws line with
         | ["schema"; id] ->
-          if id = "synth_express" || id = "synth_fluid" || id = "synth_punct_express" || id = "synth_punct_fluid" then begin
+          if List.mem id ["synth_express"; "synth_fluid"; "synth_punct_express"; "synth_punct_fluid"; "synth_kb_express"; "synth_kb_fluid"] then begin
             cfg := (if id = "synth_express" || id = "synth_fluid" then synth_cfg (id = "synth_fluid") dlog
-                    else synth_punct_cfg (id = "synth_punct_fluid") dlog);
+                    else if id = "synth_punct_express" || id = "synth_punct_fluid" then synth_punct_cfg (id = "synth_punct_fluid") dlog
+                    else synth_kb_cfg (id = "synth_kb_fluid") dlog);
             st := Some (init_state !cfg);
             print_endline ("== " ^ id)
           end else begin
